@@ -307,6 +307,67 @@ func main() {
 				})
 				continue
 			}
+			// a "fast path" at the head of the function: an empty slice/string parameter answers the zero results at once
+			if fd.Type.Results != nil && len(fd.Body.List) > 0 {
+				zero := func(t ast.Expr) string {
+					switch y := t.(type) {
+					case *ast.Ident:
+						switch y.Name {
+						case "error":
+							return "nil"
+						case "string":
+							return `""`
+						case "bool":
+							return "false"
+						case "int", "int8", "int16", "int32", "int64", "uint", "uint8", "uint16", "uint32", "uint64", "byte", "rune", "uintptr":
+							return "0"
+						}
+					case *ast.ArrayType:
+						if y.Len == nil {
+							return "nil"
+						}
+					case *ast.StarExpr, *ast.InterfaceType, *ast.MapType, *ast.FuncType:
+						return "nil"
+					}
+					return ""
+				}
+				var zs []string
+				okZ := true
+				for _, r := range fd.Type.Results.List {
+					z := zero(r.Type)
+					if z == "" {
+						okZ = false
+					}
+					k := len(r.Names)
+					if k == 0 {
+						k = 1
+					}
+					for i := 0; i < k; i++ {
+						zs = append(zs, z)
+					}
+				}
+				if okZ && fd.Type.Params != nil {
+					for _, prm := range fd.Type.Params.List {
+						isSeq := false
+						switch y := prm.Type.(type) {
+						case *ast.ArrayType:
+							isSeq = y.Len == nil
+						case *ast.Ident:
+							isSeq = y.Name == "string"
+						}
+						if !isSeq {
+							continue
+						}
+						for _, nm := range prm.Names {
+							if nm.Name == "_" {
+								continue
+							}
+							first := fd.Body.List[0]
+							emit("early-zero", first.Pos(), first.Pos(), "if len("+nm.Name+") == 0 {\nreturn "+strings.Join(zs, ", ")+"\n}\n")
+						}
+					}
+				}
+			}
 			ast.Inspect(fd.Body, func(n ast.Node) bool {
 				switch x := n.(type) {
 				case *ast.BinaryExpr:
